@@ -7,7 +7,7 @@ module (backupdb.os / backupdb.time / backupdb.random) so that file attributes, 
 
 Three families of histories are explored by level-synchronous BFS (vt.lib_bfs), all histories up to
 depth 5 (quick; 4 for dirs and mixed) / 6 (thorough; 5 for dirs):
-  files   2 paths whose (size, mtime, ctime) each take 2 values (os.stat answers from the model).
+  files   2 paths (differing only in letter case) whose (size, mtime, ctime) each take 2 values (os.stat answers from the model).
           ops: flip one attribute of one path (6); swap = rename a<->b (1);
           check_file(path, use_timestamps in {T,F}) followed by one of {nothing, did_upload(cap1),
           did_upload(cap2), did_check_healthy (if a cap was returned)} (16);
@@ -43,7 +43,7 @@ from allmydata.scripts import backupdb
 
 LEVEL = "model_checking"
 ASSUMPTIONS = [
-    "2 local paths, each of size/mtime/ctime from 2 values, 2 file caps, 2 dir caps, 7 directory contents; histories up to depth 5/4 (quick) / 6/5 (thorough); the code has no value-dependent branch besides equality tests and the age thresholds (by inspection)",
+    "2 local paths that differ only in letter case, each of size/mtime/ctime from 2 values, 2 file caps, 2 dir caps, 7 directory contents; histories up to depth 5/4 (quick) / 6/5 (thorough); the code has no value-dependent branch besides equality tests and the age thresholds (by inspection)",
     "os.stat / time.time / random.random are the module-level names of allmydata.scripts.backupdb rebound by the check; random.random returns a per-root constant (quick 0.0; thorough 0.0 and 0.99)",
     "files and directories are explored separately to full depth and together over a reduced menu (the two share only the connection, the clock and the coin)",
     "sibling transitions re-open a byte-identical copy of the parent's database (a new backup run); the first child of each state runs its whole history on one connection",
@@ -52,7 +52,7 @@ ASSUMPTIONS = [
 
 DAY = 24 * 60 * 60
 T0 = 1000000000
-PATHS = [u"/c42fs/a", u"/c42fs/b"]
+PATHS = [u"/c42fs/Report.txt", u"/c42fs/report.txt"]     # two different files whose paths differ only in letter case
 VALS = [(10, 11), (1000, 1001), (2000, 2001)]       # size, mtime, ctime
 FIELD = ["size", "mtime", "ctime"]
 CAPS = [b"URI:CHK:cap1", b"URI:CHK:cap2"]
